@@ -1197,6 +1197,7 @@ def replay(ctx, case):
         print("explicit validate():", explicit_validate_outcome(cls, d))
         check_defs(ctx, [(cls, d, case.get("corruptions") or [], case.get("documented"), "replay")])
     elif kind == "battery":
+        seen = {}
         for fl in ("10", case["flags"]):
             env = dict(os.environ, C19_FLAGS=fl, PYTHONHASHSEED="0")
             p = subprocess.run([sys.executable, "-B", os.path.abspath(__file__), "worker", str(case["seed"]), str(case["n"])],
@@ -1205,10 +1206,14 @@ def replay(ctx, case):
                 r = json.loads(l)
                 if r["id"] == case["id"]:
                     print(f"flags validate={fl[0]} mutable={fl[1]}:", l[:700])
+                    seen[fl] = r["obs"]
                     if r.get("problems"):
                         ctx.violations.append("replayed")
             if p.returncode:
                 print(p.stderr[-600:])
+        if len({json.dumps(v) for v in seen.values()}) > 1:
+            print("the observation depends on the global options")
+            ctx.violations.append("replayed")
     elif kind == "stray":
         stray_row(ctx)
     else:
